@@ -185,6 +185,26 @@ func genExpr(tier string, seed int64, out func(interface{})) {
 			emit([]XOp{valOp(a), {K: "un", O: o}}, nil)
 		}
 	}
+	// composed set expressions: sets that only exist at evaluation time (e.g. mixed element types built by union)
+	sets := []Val{}
+	elems := []Val{vInt(1), vInt(2), vStr("a"), vBytes([]byte{1}), vDate(0), vBool(true)}
+	for _, v := range pool {
+		if v.T == "set" {
+			sets = append(sets, v)
+		}
+	}
+	for _, a := range sets {
+		for _, b := range sets {
+			for _, o := range []string{"union", "inter"} {
+				for _, x := range elems {
+					emit([]XOp{valOp(a), valOp(b), {K: "bin", O: o}, valOp(x), {K: "bin", O: "contains"}}, nil)
+				}
+				emit([]XOp{valOp(a), valOp(b), {K: "bin", O: o}, {K: "un", O: "len"}}, nil)
+				emit([]XOp{valOp(a), valOp(b), {K: "bin", O: o}, valOp(a), {K: "bin", O: "contains"}}, nil)
+				emit([]XOp{valOp(a), valOp(b), {K: "bin", O: o}, valOp(b), valOp(a), {K: "bin", O: o}, {K: "bin", O: "eq"}}, nil)
+			}
+		}
+	}
 	// malformed shapes
 	emit([]XOp{}, nil)
 	for _, o := range binaryNames {
